@@ -49,6 +49,7 @@ func init() {
 		// a removed document must leave every modality it was added to (C06.RM, hybrid instance)
 		if hk, err := hybridKindOf(r.W); err == nil {
 			ruleHybridRemove(r, hk)
+			ruleHybridFlagTables(r, hk, "C05.FLAGS")
 			ruleForwardGuards(r, "C05.PARAMS", []*ssa.Function{hk.Execute}, map[string]bool{"WithNProbes": true, "WithEfSearch": true, "WithThreshold": true}, 3)
 		}
 		r.FloorCheck("C05.CAND", 6)
@@ -96,7 +97,7 @@ func init() {
 		ruleTextRemoveMarks(r, "C06.REMOVE", tk)
 		ruleMetaRemoveCovers(r, "C06.RM.meta", mk)
 		ruleHybridRemove(r, hk)
-		ruleHybridFlagTables(r, hk)
+		ruleHybridFlagTables(r, hk, "C06.FLAGS")
 		ruleIDCounter(r, "C06.ID")
 		r.FloorCheck("C06.ATOMIC.hybrid", 4)
 		r.FloorCheck("C06.REVIVE", 12)
